@@ -81,6 +81,10 @@ def c02(r):
                 out.append(F('c02-future-resolved-while-live', 'the future is never resolved while the process is live',
                              dict(op=r.ops[i], fut=fs, ops=r.ops[:i + 1])))
                 break
+    if label in TERMINAL and not cancelled_by_env and hasattr(r, 'fut_done') and not r.fut_done:
+        out.append(F('c02-future-waiter-not-told', 'the future resolves to the outcome and whoever waits on it is released (a done-callback '
+                     'registered on the process future runs, on the loop of the process, once the process has terminated)',
+                     dict(final=label, ops=r.ops)))
     if label not in TERMINAL:
         return out
     f = p.future()
@@ -119,7 +123,7 @@ def c02(r):
     if terms != [want]:
         out.append(F('c02-terminal-notification', 'listeners receive exactly one terminal notification',
                      dict(got=terms, state=label)))
-    if len(r.cleanups) != 1 or r.cleanups_other != {'raising': 1, 'last': 1}:
+    if len(r.cleanups) != 1 or r.cleanups_other != {'raising': 1, 'last': 1, 'late': 1}:
         out.append(F('c02-cleanups', 'registered cleanups run exactly once',
                      dict(first=len(r.cleanups), **r.cleanups_other)))
     try:
@@ -216,6 +220,9 @@ def c04(r):
             out.append(F('c04-failed-step-not-excepted', 'the process ends EXCEPTED if the step fails, whatever was requested',
                          dict(final=r.outcome(), raised=f'user{n}', ops=r.ops)))
             break
+    if live_cancels and not any(op == 'tick trykill' for op in r.ops):
+        out.append(F('c04-cancel-hook-never-ran', "cancelling the process's future has the same effect as kill(): the cancellation is "
+                     'noticed (the done-callback of the future runs on the loop of the process)', dict(ops=r.ops, final=label)))
     if live_cancels and not live_kills:
         if label == 'excepted' and not (isinstance(p.exception(), UserExc) and _user_exception_possible(r)):
             out.append(F('c04-cancel-excepted:' + excname(p.exception()),
